@@ -458,5 +458,64 @@ theorem bars_stacked_line (env : Env) (g : BarGraph) (vt : VirtualTerm) (ho : vt
     rfl
   · rw [hl, hg2m, hg2f]
 
+/-! ### the sparkline header spans the sparkline (c54b92c) -/
+
+theorem codeState_fill (r : Nat) (hr : r ≠ 27) (k : Nat) : codeState false (List.replicate k r) = false := by
+  induction k with
+  | zero => rfl
+  | succ k ih => simp [List.replicate_succ, codeState, hr, ih]
+
+theorem strLenGo_fill (r : Nat) (hr : r ≠ 27) (k : Nat) (rest : List Nat) (n : Nat) :
+    strLenGo false (List.replicate k r ++ rest) n = strLenGo false rest (n + k) := by
+  induction k generalizing n with
+  | zero => simp
+  | succ k ih =>
+    simp only [List.replicate_succ, List.cons_append, strLenGo, hr, if_false, Bool.false_and, Bool.false_eq_true, Bool.not_false, if_true]
+    rw [ih]; congr 1; omega
+
+/-- a text, then at least one ASCII filler character, then anything: the visible widths add up -/
+theorem strLen_fill_append (env : Env) (x : UInt8) (hx : x.toNat < 0x80) (hne : x.toNat ≠ 27) (c : Bytes) (m : Nat) (rest : Bytes)
+    (ht : Terminated env c) :
+    strLen env (c ++ List.replicate (m + 1) x ++ rest) = strLen env c + (m + 1 : Nat) + strLen env rest := by
+  have hd : decodeUtf8 (c ++ List.replicate (m + 1) x ++ rest)
+      = decodeUtf8 c ++ List.replicate (m + 1) x.toNat ++ decodeUtf8 rest := by
+    rw [List.replicate_succ, List.append_assoc, List.cons_append, decodeUtf8_before_ascii c x hx]
+    rw [decodeUtf8_asciiList _ (by intro y hy; rw [List.eq_of_mem_replicate hy]; exact hx)]
+    simp [List.replicate_succ]
+  unfold strLen
+  rw [hd]
+  by_cases hcol : env.color
+  · have ht' := ht hcol
+    simp only [hcol, Bool.not_true, Bool.false_eq_true, if_false]
+    rw [List.append_assoc, strLenGo_append, ht', strLenGo_fill _ hne, strLenGo_acc]
+    omega
+  · simp only [hcol, Bool.not_false, if_true]
+    simp only [List.length_append, List.length_replicate]
+    omega
+
+theorem writeRepeat_dots (n : Nat) : writeRepeat 46 (n : Int) = List.replicate n (46 : UInt8) := by
+  unfold writeRepeat
+  have : encodeRune 46 = [46] := by decide
+  rw [this, Int.toNat_natCast]
+  induction n with
+  | zero => rfl
+  | succ n ih => simp [List.replicate_succ, ih]
+
+/-- when the first and the last column name fit next to each other, the `First...Last` text is exactly as
+wide as the sparkline below it (one cell per displayed column), so the last name ends above the last
+column – for multi-byte names too (c54b92c); otherwise it is the two names back to back -/
+theorem spark_header_spans (env : Env) (names : List Bytes) (ht : Terminated env names.head!)
+    (hfit : strLen env names.head! + strLen env names.getLast! < names.length) :
+    strLen env (sparkHeaderText env names) = names.length := by
+  unfold sparkHeaderText
+  simp only
+  have h1 := strLen_nonneg env names.head!
+  have h2 := strLen_nonneg env names.getLast!
+  rw [if_neg (by omega)]
+  obtain ⟨m, hm⟩ : ∃ m : Nat, (names.length : Int) - strLen env names.head! - strLen env names.getLast! = ((m + 1 : Nat) : Int) :=
+    ⟨((names.length : Int) - strLen env names.head! - strLen env names.getLast!).toNat - 1, by omega⟩
+  rw [hm, writeRepeat_dots, strLen_fill_append env 46 (by decide) (by decide) _ m _ ht]
+  omega
+
 end
 end Rare.C14
